@@ -38,5 +38,16 @@ int main(int argc, char** argv) {
     EXPECT(!(WIFEXITED(st) && WEXITSTATUS(st) == 3), "'%s' is accepted and evaluates to a value that does not have the structure of the reported type", e.c_str());
     EXPECT(false, "'%s' is accepted although the type of its step never stabilises", e.c_str());
   }
+  // recursions that ARE well typed: the value (the initial value when the condition fails at once, else a value of the step)
+  // must have the structure of the reported type
+  for (const std::string e : { "R{a:={{1}} | 1=2 | \xE2\x88\x85}", "R{a:=\xE2\x88\x85 | 1=2 | {{1}}}", "R{a:={{1}} | \xE2\x88\x85}", "R{a:=\xE2\x88\x85 | a\xE2\x88\xAA{{1}}}" }) {
+    Auditor auditor{ ctx, [](const std::string&) { return ValueClass::value; }, [](const std::string&) -> const SyntaxTree* { return nullptr; } };
+    if (!auditor.CheckType(e, Syntax::MATH)) { std::printf("%s: rejected\n", e.c_str()); continue; }
+    const auto type = auditor.GetType();
+    Interpreter ip{ ctx, [](const std::string&) -> const SyntaxTree* { return nullptr; }, [](const std::string&) -> std::optional<object::StructuredData> { return std::nullopt; } };
+    const auto v = ip.Evaluate(e, Syntax::MATH);
+    if (!v.has_value() || !std::holds_alternative<object::StructuredData>(v.value()) || !std::holds_alternative<Typification>(type)) continue;
+    EXPECT(object::CheckCompatible(std::get<object::StructuredData>(v.value()), std::get<Typification>(type)), "'%s' is typed %s but evaluates to %s, which does not have that structure", e.c_str(), std::get<Typification>(type).ToString().c_str(), std::get<object::StructuredData>(v.value()).ToString().c_str());
+  }
   return verdict();
 }
